@@ -2,6 +2,7 @@ package main
 
 import (
 	"context"
+	"encoding/json"
 	"regexp"
 	"sort"
 	"strings"
@@ -21,7 +22,13 @@ type MemRec struct {
 	TS    []int      `json:"ts"` // [seconds, nanoseconds]
 	Line  []int      `json:"line"`
 	Attrs [][2][]int `json:"attrs"`
-	Doc   [][2][]int `json:"doc"` // ground-truth document the line encodes (specification only)
+	Doc   [][2][]int `json:"doc"` // ground-truth logfmt document the line encodes (specification only)
+	// JSON ground truth (specification only): the document tree, whether the line is its reference encoding,
+	// whether the line is - by construction - not an encoding of any document
+	Jdoc   json.RawMessage `json:"jdoc,omitempty"`
+	Jcanon bool            `json:"jcanon"`
+	Jmal   bool            `json:"jmal"`
+	Lmal   bool            `json:"lmal"`
 }
 
 // CapsIn is a storage capability configuration.
